@@ -509,7 +509,7 @@ func main() {
 	runner.Main(runner.Config{
 		Property:  "C14",
 		Technique: "bounded-exhaustive enumeration of built rule lists (round trip) and of all strings up to a length (splitter no-loss law, fast-vs-slow path differential)",
-		Rule: "(1) every (key,value,message) single rule over 34 keys x 17 values x 18 messages (incl. bracketed values (a)/(b), (), and CJK runes whose low code-point byte is a syntax byte) built with GenValidKV, accumulated with RM.Set in three ways, split and parsed back; all lists of length 2 and 3 over a reduced menu with quoted commas; " +
+		Rule: "(1) every (key,value,message) single rule over 34 keys x 17 values x 18 messages (incl. bracketed values (a)/(b), (), and CJK runes whose low code-point byte is a syntax byte) built with GenValidKV, accumulated with RM.Set in three ways, split and parsed back; all lists of length 2 and 3 over a reduced menu with quoted commas; values handed to the builder with their separator in front (31 keys x 10 values incl. =>, =, == x 6 messages); one rule slice with empty entries spread into Set for three objects in a row; " +
 			"(2) every string of length<=n over {a , ' | =} (and the bytes of a CJK rune, and runes whose low code-point byte equals ' , / = |) for separators ',' and '/': join(pieces)=input up to one trailing separator, no split inside balanced quotes, fast path = slow path; " +
 			"non-trivial = lists with more than one rule or quoted commas / '=' in messages; strings containing a quote",
 		Assumptions: []string{"commas occur only inside single quotes in values and messages (as documented)", "values do not contain '|'"},
